@@ -15,6 +15,7 @@ C03 for `generic_with`, part 4: the simulation.
 import Kodama.Lemmas.GenericGreedyUpdate
 import Kodama.Lemmas.GenericGreedyInit
 import Kodama.Lemmas.PrimGreedyRun
+import Kodama.Lemmas.SpecRunGood
 set_option linter.unusedSectionVars false
 set_option linter.unusedSimpArgs false
 set_option linter.unusedVariables false
@@ -266,6 +267,121 @@ theorem primSim_step_pair (chk : Bool) (m : Method) (hsym : LwSymm α m) (n : Na
       exact hsizeo x hxb
 
 
+/-- **From the specification-level hypothesis `Spec.RunGood` to the values one update writes.**
+Under the simulation invariant, merging a globally closest live pair `a < b` is an admissible greedy
+step of the specification, so the table of the NEXT specification state — whose new entries are
+exactly the Lance–Williams values that the update of the model is about to write — is good. -/
+theorem primSim_pair_good {G : α → Prop} (chk : Bool) (m : Method) (hsym : LwSymm α m) (n : Nat)
+    (data : Array α) (k : Nat) (live : List Nat) (st : State α)
+    (dend : Dendrogram α) (M : Mat α) (s : NState α) (mo : List (Step α))
+    (sim : PrimSim chk m n data k live st dend M s mo) (hrun : RunGood G m n data)
+    (a b : Nat) (hab : a < b) (ha : a ∈ live) (hb : b ∈ live) (dist : α)
+    (hget : M.get chk a b = .ok dist)
+    (hmin : ∀ x ∈ live, ∀ y ∈ live, x < y → ∀ w, M.get chk x y = .ok w → Num.lt w dist = false) :
+    UpdGoodAt G chk m st.sizes M live a b := by
+  have inv := sim.inv
+  have hlt := inv.rep.lt_n
+  generalize hes : rawOf dend = es
+  generalize hlab : labAt n es k = lab
+  have hD : ∀ x ∈ live, ∀ y ∈ live, x < y → M.get chk x y = .ok (s.D (lab x) (lab y)) := by
+    rw [← hlab, ← hes]; exact sim.D
+  have hsize : ∀ x ∈ live, st.sizes.getD x 0 = s.size (lab x) := by
+    rw [← hlab, ← hes]; exact sim.size
+  have hsLive : ∀ l, l ∈ s.live ↔ ∃ x ∈ live, lab x = l := by
+    rw [← hlab, ← hes]; exact sim.sLive
+  have hds := sim.dsymm
+  have hst := sim.stinv
+  have hnext : s.next = n + k := hst.next
+  have hliveq : live = liveAt n es k := by rw [← hes]; exact sim.live_eq
+  have labinj : ∀ x ∈ live, ∀ y ∈ live, lab x = lab y → x = y := by
+    rw [← hlab, hliveq]; exact labAt_inj n es k
+  have lablt : ∀ x ∈ live, lab x < n + k := by
+    intro x hx; rw [← hlab]; exact labAt_lt n es k x (hlt x hx)
+  have labmem : ∀ x ∈ live, lab x ∈ s.live := fun x hx => (hsLive _).mpr ⟨x, hx, rfl⟩
+  have mgetD : ∀ x ∈ live, ∀ y ∈ live, x ≠ y → mget chk M x y = .ok (s.D (lab x) (lab y)) := by
+    intro x hx y hy hxy
+    by_cases c : x < y
+    · rw [mget_of_lt chk M c]; exact hD x hx y hy c
+    · have c' : y < x := by omega
+      rw [mget_of_gt chk M c', hds (lab x) (lab y)]; exact hD y hy x hx c'
+  have hdist : dist = s.D (lab a) (lab b) := by
+    have := hD a ha b hb hab
+    rw [hget] at this
+    injection this
+  have hane : a ≠ b := by omega
+  generalize hla : lab a = la at *
+  generalize hlb : lab b = lb at *
+  have hlab_ne : la ≠ lb := by
+    intro e; apply hane; apply labinj a ha b hb; rw [hla, hlb, e]
+  have hla_mem : la ∈ s.live := by rw [← hla]; exact labmem a ha
+  have hlb_mem : lb ∈ s.live := by rw [← hlb]; exact labmem b hb
+  have hmm : (min la lb = la ∧ max la lb = lb) ∨ (min la lb = lb ∧ max la lb = la) := by
+    by_cases c : la ≤ lb
+    · exact Or.inl ⟨Nat.min_eq_left c, Nat.max_eq_right c⟩
+    · exact Or.inr ⟨Nat.min_eq_right (by omega), Nat.max_eq_left (by omega)⟩
+  have hdc : s.D (min la lb) (max la lb) = dist := by
+    rcases hmm with ⟨e1, e2⟩ | ⟨e1, e2⟩ <;> rw [e1, e2, hdist]
+    exact hds lb la
+  generalize hsz : st.sizes.getD a 0 + st.sizes.getD b 0 = sz
+  have hszc : s.size (min la lb) + s.size (max la lb) = sz := by
+    have e1 := hsize a ha
+    have e2 := hsize b hb
+    rw [hla] at e1; rw [hlb] at e2
+    rcases hmm with ⟨c1, c2⟩ | ⟨c1, c2⟩ <;> rw [c1, c2, ← hsz, e1, e2]
+    exact Nat.add_comm _ _
+  let stp : Step α := Step.new la lb (post m dist) sz
+  have hc1 : stp.c1 = min la lb := Step.new_c1 _ _ _ _
+  have hc2 : stp.c2 = max la lb := Step.new_c2 _ _ _ _
+  have hadm : Admissible m s stp := by
+    refine ⟨?_, ?_, ?_, ?_, ?_, ?_⟩
+    · rw [hc1]; rcases hmm with ⟨c1, _⟩ | ⟨c1, _⟩ <;> rw [c1] <;> assumption
+    · rw [hc2]; rcases hmm with ⟨_, c2⟩ | ⟨_, c2⟩ <;> rw [c2] <;> assumption
+    · rw [hc1, hc2]; omega
+    · intro x hx y hy hxy
+      rw [hc1, hc2, hdc]
+      obtain ⟨x', hx', rfl⟩ := (hsLive x).mp hx
+      obtain ⟨y', hy', rfl⟩ := (hsLive y).mp hy
+      have hne' : x' ≠ y' := fun e => hxy (by rw [e])
+      by_cases c : x' < y'
+      · exact hmin x' hx' y' hy' c _ (hD x' hx' y' hy' c)
+      · have c' : y' < x' := by omega
+        rw [hds]
+        exact hmin y' hy' x' hx' c' _ (hD y' hy' x' hx' c')
+    · rw [hc1, hc2, hdc]; exact Step.new_d _ _ _ _
+    · rw [hc1, hc2, hszc]; exact Step.new_size _ _ _ _
+  -- the extended run is greedy, hence its table is good
+  have hg : GreedyFrom m (init m n data) (mo ++ [stp]) :=
+    (greedyFrom_append m _ mo stp).mpr ⟨sim.greedy, by rw [← sim.state]; exact hadm⟩
+  have ht := hrun (mo ++ [stp]) hg
+  rw [replay_append, ← sim.state] at ht
+  simp only [replay] at ht
+  rw [hc1, hc2] at ht
+  -- the values written
+  intro z hz hza hzb va vb d0 hva hvb hd0
+  rw [mgetD z hz a ha hza] at hva
+  rw [mgetD z hz b hb hzb] at hvb
+  rw [hget] at hd0
+  injection hva with hva
+  injection hvb with hvb
+  injection hd0 with hd0
+  rw [hla] at hva
+  rw [hlb] at hvb
+  have n1 : lab z ≠ la := fun e => hza (labinj z hz a ha (by rw [hla, e]))
+  have n2 : lab z ≠ lb := fun e => hzb (labinj z hz b hb (by rw [hlb, e]))
+  have lz : lab z ≠ s.next := by have := lablt z hz; omega
+  have hzmem : lab z ∈ (merge m s (min la lb) (max la lb)).live := by
+    rw [mem_merge_live]
+    refine Or.inl ⟨labmem z hz, ?_, ?_⟩
+    · rcases hmm with ⟨c1, _⟩ | ⟨c1, _⟩ <;> rw [c1] <;> assumption
+    · rcases hmm with ⟨_, c2⟩ | ⟨_, c2⟩ <;> rw [c2] <;> assumption
+  have hcmem : s.next ∈ (merge m s (min la lb) (max la lb)).live := by
+    rw [mem_merge_live]; exact Or.inr rfl
+  have key := ht (lab z) hzmem s.next hcmem lz
+  rw [merge_D, if_neg lz, if_pos rfl] at key
+  rw [← hva, ← hvb, ← hd0, hdist, hsize z hz, hsize a ha, hsize b hb, hla, hlb,
+    lw_merge_eq hsym hds la lb (lab z)]
+  exact key
+
 /-! ### The loop invariant of `generic_with` -/
 
 /-- Loop invariant after `k` merges: totality invariant, lower bounds, simulation. -/
@@ -283,11 +399,13 @@ def GlobalMinPair (chk : Bool) (M : Mat α) (live : List Nat) (a b : Nat) (dist 
 
 /-- **One iteration of the main loop of `generic_with`** is total, merges a globally closest live
 pair, and advances the invariant. -/
-theorem genericIter_sim {G : α → Prop} (L : OrderLaws α) (hbeq : BeqLe α) (gs : GoodSet G)
-    (chk : Bool) (m : Method) (hcl : UpdClosed G m) (hlbc : l1Mode m = .fix → LBClosed G m)
+theorem genericIter_sim' {G : α → Prop} (L : OrderLaws α) (hbeq : BeqLe α) (gs : GoodSet G)
+    (chk : Bool) (m : Method) (hlbc : l1Mode m = .fix → LBClosed G m)
     (hsym : LwSymm α m) (hmax : Num.isNaN (Num.maxValue : α) = false)
     (n : Nat) (data : Array α) (k : Nat) (live : List Nat) (st : State α) (dend : Dendrogram α)
-    (M : Mat α) (hk : k + 1 < n) (inv : GenSim G chk m n data k live st dend M) :
+    (M : Mat α) (hk : k + 1 < n) (inv : GenSim G chk m n data k live st dend M)
+    (hgood : ∀ a b dist, GlobalMinPair chk M live a b dist →
+      UpdGoodAt G chk m st.sizes M live a b) :
     ∃ st' dend' M' a b dist sz, GlobalMinPair chk M live a b dist ∧
       dend' = { dend with steps := dend.steps.push (Step.new a b dist sz) } ∧
       genericIter chk m (st, dend, M) = .ok (st', dend', M') ∧
@@ -313,10 +431,11 @@ theorem genericIter_sim {G : α → Prop} (L : OrderLaws α) (hbeq : BeqLe α) (
   -- update
   have hq2 := QInvB.afterPop q1 a b hb hab inv2 hprio2 hlive2
   obtain ⟨st3, M3, sa, sb, dist', eupd, q3, hM3, hsz3, hact3, lb3, hsab, hdd, hrows⟩ :=
-    genericUpdate_lb L gs chk m hcl hlbc live
+    genericUpdate_lb' L gs chk m hlbc live
       { st1 with queue := q2 } M (by simp only []; rw [hact1]; exact hrep)
       (by simp only []; rw [hsz1]; exact ginv.prim.sizes_sz)
       (by simp only []; rw [hsz1]; exact ginv.sizes_pos) a b ha hb hab hq2 hM
+      (by simp only []; rw [hsz1]; exact hgood a b dist ⟨hab, ha, hb, hdist, hmin⟩)
       (by simp only []; rw [hprio2]; exact lb1) dist hdist
       (by simp only []; rw [hprio2]; exact hge)
   simp only [] at hsz3 hact3 hsab hrows
@@ -378,15 +497,55 @@ theorem genericIter_sim {G : α → Prop} (L : OrderLaws α) (hbeq : BeqLe α) (
         prim4
       exact ⟨s', mo', sim'⟩
 
+/-- The closure form (a corollary of `genericIter_sim'`). -/
+theorem genericIter_sim {G : α → Prop} (L : OrderLaws α) (hbeq : BeqLe α) (gs : GoodSet G)
+    (chk : Bool) (m : Method) (hcl : UpdClosed G m) (hlbc : l1Mode m = .fix → LBClosed G m)
+    (hsym : LwSymm α m) (hmax : Num.isNaN (Num.maxValue : α) = false)
+    (n : Nat) (data : Array α) (k : Nat) (live : List Nat) (st : State α) (dend : Dendrogram α)
+    (M : Mat α) (hk : k + 1 < n) (inv : GenSim G chk m n data k live st dend M) :
+    ∃ st' dend' M' a b dist sz, GlobalMinPair chk M live a b dist ∧
+      dend' = { dend with steps := dend.steps.push (Step.new a b dist sz) } ∧
+      genericIter chk m (st, dend, M) = .ok (st', dend', M') ∧
+      GenSim G chk m n data (k + 1) (live.filter (· ≠ a)) st' dend' M' :=
+  genericIter_sim' L hbeq gs chk m hlbc hsym hmax n data k live st dend M hk inv
+    (fun a b _ h => inv.gen.updGoodAt_of_updClosed chk hcl a b h.2.1 h.2.2.1 h.1)
+
+/-- `Spec.RunGood` gives the per-iteration hypothesis at every state satisfying `GenSim`. -/
+theorem GenSim.updGoodAt_of_runGood {G : α → Prop} {chk : Bool} {m : Method} {n : Nat}
+    {data : Array α} {k : Nat} {live : List Nat} {st : State α} {dend : Dendrogram α} {M : Mat α}
+    (inv : GenSim G chk m n data k live st dend M) (hsym : LwSymm α m)
+    (hrun : RunGood G m n data) (a b : Nat) (dist : α) (h : GlobalMinPair chk M live a b dist) :
+    UpdGoodAt G chk m st.sizes M live a b := by
+  obtain ⟨s, mo, sim⟩ := inv.sim
+  exact primSim_pair_good chk m hsym n data k live st dend M s mo sim hrun a b h.1 h.2.1 h.2.2.1
+    dist h.2.2.2.1 h.2.2.2.2
+
+/-- **One iteration under the run-dependent hypothesis `Spec.RunGood`.** -/
+theorem genericIter_sim_run {G : α → Prop} (L : OrderLaws α) (hbeq : BeqLe α) (gs : GoodSet G)
+    (chk : Bool) (m : Method) (hlbc : l1Mode m = .fix → LBClosed G m)
+    (hsym : LwSymm α m) (hmax : Num.isNaN (Num.maxValue : α) = false)
+    (n : Nat) (data : Array α) (hrun : RunGood G m n data) (k : Nat) (live : List Nat)
+    (st : State α) (dend : Dendrogram α)
+    (M : Mat α) (hk : k + 1 < n) (inv : GenSim G chk m n data k live st dend M) :
+    ∃ st' dend' M' a b dist sz, GlobalMinPair chk M live a b dist ∧
+      dend' = { dend with steps := dend.steps.push (Step.new a b dist sz) } ∧
+      genericIter chk m (st, dend, M) = .ok (st', dend', M') ∧
+      GenSim G chk m n data (k + 1) (live.filter (· ≠ a)) st' dend' M' :=
+  genericIter_sim' L hbeq gs chk m hlbc hsym hmax n data k live st dend M hk inv
+    (fun a b dist h => inv.updGoodAt_of_runGood hsym hrun a b dist h)
+
 /-! ### The whole loop -/
 
 /-- The main loop of `genericWith` from any state satisfying `GenSim`: total, and the raw dendrogram
 relabelled in merge order is a greedy run of the specification. -/
-theorem genericLoop_sim {G : α → Prop} (L : OrderLaws α) (hbeq : BeqLe α) (gs : GoodSet G)
-    (chk : Bool) (m : Method) (hcl : UpdClosed G m) (hlbc : l1Mode m = .fix → LBClosed G m)
+theorem genericLoop_sim' {G : α → Prop} (L : OrderLaws α) (hbeq : BeqLe α) (gs : GoodSet G)
+    (chk : Bool) (m : Method) (hlbc : l1Mode m = .fix → LBClosed G m)
     (hsym : LwSymm α m) (hmax : Num.isNaN (Num.maxValue : α) = false) (n : Nat) (data : Array α)
     (h2 : 2 ≤ n) (st : State α) (dend : Dendrogram α) (M : Mat α)
-    (inv0 : GenSim G chk m n data 0 (List.range n) st dend M) :
+    (inv0 : GenSim G chk m n data 0 (List.range n) st dend M)
+    (hgood : ∀ k live st' dend' M', k + 1 < n → GenSim G chk m n data k live st' dend' M' →
+      ∀ a b dist, GlobalMinPair chk M' live a b dist →
+      UpdGoodAt G chk m st'.sizes M' live a b) :
     ∃ st1 dend1 M1, iterM (genericIter chk m) (n - 1) (st, dend, M) = .ok (st1, dend1, M1) ∧
       PrimGreedyResult m n data dend1 M1 ∧ (∀ s ∈ dend1.steps.toList, G s.d) := by
   have key := iterM_ok
@@ -398,7 +557,8 @@ theorem genericLoop_sim {G : α → Prop} (L : OrderLaws α) (hbeq : BeqLe α) (
       obtain ⟨st, dend, M⟩ := s
       simp only [Nat.zero_add] at hinv ⊢
       obtain ⟨st', dend', M', a, _, _, _, _, _, e, hinv'⟩ :=
-        genericIter_sim L hbeq gs chk m hcl hlbc hsym hmax n data j live st dend M (by omega) hinv
+        genericIter_sim' L hbeq gs chk m hlbc hsym hmax n data j live st dend M (by omega) hinv
+          (hgood j live st dend M (by omega) hinv)
       exact ⟨(st', dend', M'), e, _, hinv'⟩)
     ⟨List.range n, by simpa using inv0⟩
   obtain ⟨⟨st1, dend1, M1⟩, e, live, hinv⟩ := key
@@ -430,14 +590,30 @@ theorem genericLoop_sim {G : α → Prop} (L : OrderLaws α) (hbeq : BeqLe α) (
       valid := by rw [← hmo]; exact ⟨hsim.mo_len, hsim.greedy⟩
       hts := by rw [← hmo]; exact hsim.hts }
 
-/-- `genericWith` on a valid matrix with good entries: the (total) loop with its greedy-run
-certificate, followed by `relabel` and `sqrt`. -/
-theorem genericWith_sim {G : α → Prop} (L : OrderLaws α) (hbeq : BeqLe α) (gs : GoodSet G)
+/-- The closure form (a corollary of `genericLoop_sim'`). -/
+theorem genericLoop_sim {G : α → Prop} (L : OrderLaws α) (hbeq : BeqLe α) (gs : GoodSet G)
     (chk : Bool) (m : Method) (hcl : UpdClosed G m) (hlbc : l1Mode m = .fix → LBClosed G m)
+    (hsym : LwSymm α m) (hmax : Num.isNaN (Num.maxValue : α) = false) (n : Nat) (data : Array α)
+    (h2 : 2 ≤ n) (st : State α) (dend : Dendrogram α) (M : Mat α)
+    (inv0 : GenSim G chk m n data 0 (List.range n) st dend M) :
+    ∃ st1 dend1 M1, iterM (genericIter chk m) (n - 1) (st, dend, M) = .ok (st1, dend1, M1) ∧
+      PrimGreedyResult m n data dend1 M1 ∧ (∀ s ∈ dend1.steps.toList, G s.d) :=
+  genericLoop_sim' L hbeq gs chk m hlbc hsym hmax n data h2 st dend M inv0
+    (fun _ _ _ _ _ _ inv a b _ h => inv.gen.updGoodAt_of_updClosed chk hcl a b h.2.1 h.2.2.1 h.1)
+
+/-- `genericWith` on a valid matrix with good entries: the (total) loop with its greedy-run
+certificate, followed by `relabel` and `sqrt`.  General form: `hgood` gives, at every state
+satisfying the simulation invariant, the goodness of the values that the update of a globally
+closest pair writes. -/
+theorem genericWith_sim' {G : α → Prop} (L : OrderLaws α) (hbeq : BeqLe α) (gs : GoodSet G)
+    (chk : Bool) (m : Method) (hlbc : l1Mode m = .fix → LBClosed G m)
     (hsym : LwSymm α m) (hmax : Num.isNaN (Num.maxValue : α) = false)
     (st : State α) (d : Dendrogram α) (data : Array α) (n : Nat) (h2 : 2 ≤ n)
     (hs : n < 2147483648) (hl : 2 * data.size = n * (n - 1))
-    (hin : ∀ i (h : i < (squareData m data).size), G (squareData m data)[i]) :
+    (hin : ∀ i (h : i < (squareData m data).size), G (squareData m data)[i])
+    (hgood : ∀ k live st' dend' M', k + 1 < n → GenSim G chk m n data k live st' dend' M' →
+      ∀ a b dist, GlobalMinPair chk M' live a b dist →
+      UpdGoodAt G chk m st'.sizes M' live a b) :
     ∃ (st1 : State α) (dend1 : Dendrogram α) (M1 : Mat α), PrimGreedyResult m n data dend1 M1 ∧
       (∀ s ∈ dend1.steps.toList, G s.d) ∧
       genericWith chk m st d data n =
@@ -496,7 +672,7 @@ theorem genericWith_sim {G : α → Prop} (L : OrderLaws α) (hbeq : BeqLe α) (
       ({ data := squareData m data, n := n, acc := 0 } : Mat α) :=
     ⟨ginv0, lb0, _, _, sim0⟩
   obtain ⟨st1, dend1, M1, hloop, hres, hdg⟩ :=
-    genericLoop_sim L hbeq gs chk m hcl hlbc hsym hmax n data h2 _ _ _ inv0
+    genericLoop_sim' L hbeq gs chk m hlbc hsym hmax n data h2 _ _ _ inv0 hgood
   refine ⟨st1, dend1, M1, hres, hdg, ?_⟩
   have hstart : ((Gen.heapReset (State.fresh n : State α).queue
         (State.fresh n : State α).queue.prio.size).prio, (State.fresh n : State α).nearest)
@@ -510,6 +686,57 @@ theorem genericWith_sim {G : α → Prop} (L : OrderLaws α) (hbeq : BeqLe α) (
   have hn0 : ¬ n = 0 := by omega
   simp only [bind, Except.bind, hn0, if_false, State.reset_eq_fresh, dendrogramReset_eq, hstart,
     einit, hheap, hloop]
+
+/-- The closure form (a corollary of `genericWith_sim'`). -/
+theorem genericWith_sim {G : α → Prop} (L : OrderLaws α) (hbeq : BeqLe α) (gs : GoodSet G)
+    (chk : Bool) (m : Method) (hcl : UpdClosed G m) (hlbc : l1Mode m = .fix → LBClosed G m)
+    (hsym : LwSymm α m) (hmax : Num.isNaN (Num.maxValue : α) = false)
+    (st : State α) (d : Dendrogram α) (data : Array α) (n : Nat) (h2 : 2 ≤ n)
+    (hs : n < 2147483648) (hl : 2 * data.size = n * (n - 1))
+    (hin : ∀ i (h : i < (squareData m data).size), G (squareData m data)[i]) :
+    ∃ (st1 : State α) (dend1 : Dendrogram α) (M1 : Mat α), PrimGreedyResult m n data dend1 M1 ∧
+      (∀ s ∈ dend1.steps.toList, G s.d) ∧
+      genericWith chk m st d data n =
+        (relabel m st1.set dend1 >>= fun r =>
+          pure ({ st1 with set := r.1 }, sqrtSteps m r.2, M1)) :=
+  genericWith_sim' L hbeq gs chk m hlbc hsym hmax st d data n h2 hs hl hin
+    (fun _ _ _ _ _ _ inv a b _ h => inv.gen.updGoodAt_of_updClosed chk hcl a b h.2.1 h.2.2.1 h.1)
+
+/-- `Spec.RunGood` (empty run) gives good (squared) inputs. -/
+theorem Spec.RunGood.inputs {G : α → Prop} {m : Method} {n : Nat} {data : Array α}
+    (hrun : RunGood G m n data) (hs : n < 2147483648) (hl : 2 * data.size = n * (n - 1)) :
+    ∀ i (h : i < (squareData m data).size), G (squareData m data)[i] := by
+  intro i hi
+  have hsz : (squareData m data).size = data.size := squareData_size m data
+  obtain ⟨hlen, _, _, hk⟩ := C07_bij n
+  have hil : i < (pairs n).length := by rw [hsz] at hi; omega
+  obtain ⟨hxy, hyn, hidx⟩ := hk i hil
+  generalize (pairs n)[i].1 = x at hxy hyn hidx
+  generalize (pairs n)[i].2 = y at hxy hyn hidx
+  have g := init_get true m data n hs hl x y hxy hyn
+  have g' := (C07_get true ({ data := squareData m data, n := n, acc := 0 } : Mat α) x y hxy hyn
+    hs).1
+  rw [g, hidx] at g'
+  obtain ⟨_, g''⟩ := aget_ok.mp g'.symm
+  rw [g'']
+  exact hrun [] trivial x (by simp [replay, init]; omega) y (by simpa [replay, init] using hyn)
+    (by omega)
+
+/-- **`genericWith` under the run-dependent hypothesis `Spec.RunGood`**: the (total) loop with its
+greedy-run certificate, followed by `relabel` and `sqrt`. -/
+theorem genericWith_sim_run {G : α → Prop} (L : OrderLaws α) (hbeq : BeqLe α) (gs : GoodSet G)
+    (chk : Bool) (m : Method) (hlbc : l1Mode m = .fix → LBClosed G m)
+    (hsym : LwSymm α m) (hmax : Num.isNaN (Num.maxValue : α) = false)
+    (st : State α) (d : Dendrogram α) (data : Array α) (n : Nat) (h2 : 2 ≤ n)
+    (hs : n < 2147483648) (hl : 2 * data.size = n * (n - 1))
+    (hrun : RunGood G m n data) :
+    ∃ (st1 : State α) (dend1 : Dendrogram α) (M1 : Mat α), PrimGreedyResult m n data dend1 M1 ∧
+      (∀ s ∈ dend1.steps.toList, G s.d) ∧
+      genericWith chk m st d data n =
+        (relabel m st1.set dend1 >>= fun r =>
+          pure ({ st1 with set := r.1 }, sqrtSteps m r.2, M1)) :=
+  genericWith_sim' L hbeq gs chk m hlbc hsym hmax st d data n h2 hs hl (hrun.inputs hs hl)
+    (fun _ _ _ _ _ _ inv a b dist h => inv.updGoodAt_of_runGood hsym hrun a b dist h)
 
 /-- `relabel_greedy` with the non-NaN-ness of the raw heights given directly (for `generic_with` it
 comes from the good set, not from `NoNaNRun`). -/
